@@ -63,18 +63,33 @@ func r15a(c *RuleCtx) {
 			}
 		}
 	}
-	if !c.add2(len(writers) == 1, props, "single-writer", "-", "exactly one routine writes the whole of SegmentBase.mem to an io.Writer", fmt.Sprintf("%d routines write SegmentBase.mem", len(writers))) {
+	// only the routines the two entry points can reach matter (a merge may copy a lone segment's bytes
+	// into its own output: that is not a way of persisting *this* segment)
+	var apis []*ssa.Function
+	for _, api := range [][2]string{{"SegmentBase", "Persist"}, {"SegmentBase", "WriteTo"}} {
+		if m := c.method(api[0], api[1]); m != nil {
+			apis = append(apis, m)
+		}
+	}
+	var relevant []*ssa.Function
+	for _, wfn := range writers {
+		wfn := wfn
+		r := p.reachesFunc(func(f *ssa.Function) bool { return f == wfn })
+		for _, m := range apis {
+			if r[m] {
+				relevant = append(relevant, wfn)
+				break
+			}
+		}
+	}
+	if !c.add2(len(relevant) == 1, props, "single-writer", "-", "exactly one routine that Persist / WriteTo can reach writes the whole of SegmentBase.mem to an io.Writer", fmt.Sprintf("%d such routines write SegmentBase.mem (%d in the package)", len(relevant), len(writers))) {
 		return
 	}
-	w := writers[0]
+	w := relevant[0]
 	reach := p.reachesFunc(func(f *ssa.Function) bool { return f == w })
-	for _, api := range [][2]string{{"SegmentBase", "Persist"}, {"SegmentBase", "WriteTo"}} {
-		m := c.method(api[0], api[1])
-		if m == nil {
-			continue
-		}
-		c.add2(reach[m], props, "shares-writer/"+api[1], c.fpos(m), api[0]+"."+api[1]+" reaches the single writer routine "+funcShortName(w)+" (so both emit the same bytes)",
-			api[1]+" does not go through "+funcShortName(w)+": Persist and WriteTo can emit different bytes")
+	for _, m := range apis {
+		c.add2(reach[m], props, "shares-writer/"+m.Name(), c.fpos(m), "SegmentBase."+m.Name()+" reaches the single writer routine "+funcShortName(w)+" (so both emit the same bytes)",
+			m.Name()+" does not go through "+funcShortName(w)+": Persist and WriteTo can emit different bytes")
 	}
 	// the same routine also writes the footer and nothing in between can differ per entry point:
 	// WriteTo must not write anything itself
@@ -926,75 +941,175 @@ func ruleR18() *Rule {
 			}
 			// vector extra: no section address when nothing survived
 			if p.Cfg.Vectors {
-				fsm := c.method("vectorIndexOpaque", "flushSectionMetadata")
-				if fsm != nil {
-					const evNonEmpty = 1
-					var mapParam *ssa.Parameter
-					for _, prm := range fsm.Params {
-						if _, ok := prm.Type().Underlying().(*types.Map); ok {
-							mapParam = prm
-						}
-					}
-					pa := newPathAnalysis(fsm, func(ssa.Instruction, uint64, bool) []uint64 { return nil })
-					pa.edgeTr = func(pred *ssa.BasicBlock, succIdx int, ev uint64) uint64 {
-						iff, ok := pred.Instrs[len(pred.Instrs)-1].(*ssa.If)
-						if !ok {
-							return ev
-						}
-						bo, ok := iff.Cond.(*ssa.BinOp)
-						if !ok {
-							return ev
-						}
-						call, ok := bo.X.(*ssa.Call)
-						if !ok {
-							return ev
-						}
-						b, ok := call.Call.Value.(*ssa.Builtin)
-						if !ok || b.Name() != "len" || mapParam == nil || call.Call.Args[0] != ssa.Value(mapParam) {
-							return ev
-						}
-						k, ok := constInt64(bo.Y)
-						if !ok {
-							return ev
-						}
-						// which edge means len > 0 ?
+				r18VectorAddress(c)
+			}
+		},
+	}
+}
+
+// r18VectorAddress: on the merge path the address of a field's vector section is recorded only when at
+// least one vector survived. The store may sit in the routine that writes the section's metadata (guarded
+// by the non-empty id->doc table, as on the pinned tree) or in its caller (guarded by the table, or by
+// "the writer's count moved since the section started" — which says the same when every routine that was
+// handed the writer and the table in between writes nothing for an empty table; that is checked too).
+func r18VectorAddress(c *RuleCtx) {
+	p := c.p
+	props := []string{"C15"}
+	merge := p.Method("faissVectorIndexSection", "Merge")
+	if merge == nil {
+		c.undecidedP(props, "vector/address-record", "-", "faissVectorIndexSection.Merge is found", "not found")
+		return
+	}
+	isIDTable := func(t types.Type) bool {
+		m, ok := t.Underlying().(*types.Map)
+		if !ok {
+			return false
+		}
+		k, ok1 := m.Key().Underlying().(*types.Basic)
+		e, ok2 := m.Elem().Underlying().(*types.Basic)
+		return ok1 && ok2 && k.Kind() == types.Int64 && e.Kind() == types.Uint64
+	}
+	const evNonEmpty = 1
+	isCount := func(v ssa.Value) (ssa.Value, bool) {
+		if cv, ok := v.(*ssa.Convert); ok {
+			v = cv.X
+		}
+		call, ok := v.(*ssa.Call)
+		if !ok {
+			return nil, false
+		}
+		f := call.Call.StaticCallee()
+		if f == nil || f.Name() != "Count" || len(call.Call.Args) != 1 {
+			return nil, false
+		}
+		return call.Call.Args[0], true
+	}
+	analyse := func(fn *ssa.Function) *pathAnalysis {
+		pa := newPathAnalysis(fn, func(ssa.Instruction, uint64, bool) []uint64 { return nil })
+		pa.edgeTr = func(pred *ssa.BasicBlock, succIdx int, ev uint64) uint64 {
+			iff, ok := pred.Instrs[len(pred.Instrs)-1].(*ssa.If)
+			if !ok {
+				return ev
+			}
+			bo, ok := iff.Cond.(*ssa.BinOp)
+			if !ok {
+				return ev
+			}
+			taken := succIdx == 0
+			// len(table) compared with a constant
+			if call, ok := bo.X.(*ssa.Call); ok {
+				if b, ok := call.Call.Value.(*ssa.Builtin); ok && b.Name() == "len" && isIDTable(call.Call.Args[0].Type()) {
+					if k, ok := constInt64(bo.Y); ok {
 						t0, _ := cmpInt(bo.Op, 0, k)
 						t1, _ := cmpInt(bo.Op, 1, k)
-						taken := succIdx == 0
-						if t0 != t1 {
-							// edge on which len==0 is excluded
-							if (t1 == taken) && (t0 != taken) {
-								return ev | evNonEmpty
-							}
+						if t0 != t1 && (t1 == taken) && (t0 != taken) {
+							return ev | evNonEmpty
 						}
-						return ev
 					}
-					pa.run(0)
-					n := 0
-					eachInstr(fsm, func(_ *ssa.BasicBlock, in ssa.Instruction) {
-						mu, ok := in.(*ssa.MapUpdate)
-						if !ok {
-							return
-						}
-						if sn, f, _, ok := loadedField(mu.Map); !ok || sn != "vectorIndexOpaque" || f != "fieldAddrs" {
-							return
-						}
-						n++
-						okc := true
-						for _, ev := range pa.statesBefore(mu) {
-							if ev&evNonEmpty == 0 {
-								okc = false
-							}
-						}
-						c.add(statusOf(okc), "vector/no-address-when-nothing-survives", c.pos(mu), "the merged vector section address is recorded only when at least one vector survived (non-empty id->doc table)",
-							"the section address is recorded although no vector survived: a field all of whose vectors were deleted would carry a vector index", []string{"C15"}, nil)
-					})
-					if n == 0 {
-						c.undecidedP([]string{"C15"}, "vector/address-record", c.fpos(fsm), "the store of the merged vector section address is found", "not found in flushSectionMetadata")
+					return ev
+				}
+			}
+			// the writer's count now against its count at the start of the section
+			wx, okx := isCount(bo.X)
+			wy, oky := isCount(bo.Y)
+			if !okx {
+				wx, okx = isCount(resolveLoad(bo.X))
+			}
+			if !oky {
+				wy, oky = isCount(resolveLoad(bo.Y))
+			}
+			if okx && oky && sameValue(wx, wy) {
+				moved := false
+				switch bo.Op {
+				case token.GTR, token.NEQ:
+					moved = taken
+				case token.LEQ, token.EQL:
+					moved = !taken
+				case token.LSS:
+					moved = taken // start < now
+				case token.GEQ:
+					moved = !taken
+				}
+				if moved {
+					return ev | evNonEmpty
+				}
+			}
+			return ev
+		}
+		pa.run(0)
+		return pa
+	}
+	reach := p.reachableFrom(merge)
+	n := 0
+	var fns []*ssa.Function
+	for fn := range reach {
+		if p.InZap(fn) {
+			fns = append(fns, fn)
+		}
+	}
+	sort.Slice(fns, func(i, j int) bool { return fns[i].String() < fns[j].String() })
+	for _, fn := range fns {
+		var pa *pathAnalysis
+		usesCount := false
+		eachInstr(fn, func(_ *ssa.BasicBlock, in ssa.Instruction) {
+			mu, ok := in.(*ssa.MapUpdate)
+			if !ok {
+				return
+			}
+			if sn, f, _, ok := loadedField(mu.Map); !ok || sn != "vectorIndexOpaque" || f != "fieldAddrs" {
+				return
+			}
+			if pa == nil {
+				pa = analyse(fn)
+			}
+			n++
+			okc := true
+			for _, ev := range pa.statesBefore(mu) {
+				if ev&evNonEmpty == 0 {
+					okc = false
+				}
+			}
+			usesCount = true
+			c.add(statusOf(okc), "vector/no-address-when-nothing-survives", c.pos(mu), "the merged vector section address is recorded only when at least one vector survived (non-empty id->doc table, or bytes were written for the section)",
+				"the section address is recorded although no vector survived: a field all of whose vectors were deleted would carry a vector index", props, nil)
+		})
+		if !usesCount {
+			continue
+		}
+		// the routines handed the writer and the table write nothing for an empty table
+		for _, cs := range callSites(fn) {
+			callee := staticCallee(cs)
+			if callee == nil || !p.InZap(callee) || len(callee.Blocks) == 0 || callee == fn {
+				continue
+			}
+			hasTable := false
+			for _, a := range cs.Common().Args {
+				if isIDTable(a.Type()) {
+					hasTable = true
+				}
+			}
+			if !hasTable {
+				continue
+			}
+			cpa := analyse(callee)
+			okw := true
+			for _, cs2 := range callSites(callee) {
+				f2 := staticCallee(cs2)
+				if f2 == nil || f2.Name() != "Write" {
+					continue
+				}
+				for _, ev := range cpa.statesBefore(cs2) {
+					if ev&evNonEmpty == 0 {
+						okw = false
 					}
 				}
 			}
-		},
+			c.add(statusOf(okw), "vector/nothing-written-when-nothing-survives/"+funcShortName(callee), c.pos(cs), funcShortName(callee)+" writes to the output only after finding the id->doc table non-empty",
+				"bytes can be written for a field none of whose vectors survived", props, nil)
+		}
+	}
+	if n == 0 {
+		c.undecidedP(props, "vector/address-record", c.fpos(merge), "the store of the merged vector section address is found", "no store to vectorIndexOpaque.fieldAddrs is reachable from faissVectorIndexSection.Merge")
 	}
 }
 
@@ -1469,11 +1584,51 @@ func r17MergeFields(c *RuleCtx, mf *ssa.Function) {
 	deps := transitiveControlDeps(mf)
 	var bad []string
 	sawLen, sawElem := false, false
+	// Second form (segments that contribute no document are left out of the comparison): conditions on
+	// the liveness of a segment (its document count, its drops bitmap) may then decide whether a
+	// difference is looked at — provided that the function also clears the flag when the merged set of
+	// fields is not the size of the reference list (a left-out segment may still bring in a field).
+	isUnion := func(v ssa.Value) bool {
+		if isList(v, 0) {
+			return false
+		}
+		switch t := v.Type().Underlying().(type) {
+		case *types.Map:
+			b, ok := t.Key().Underlying().(*types.Basic)
+			return ok && b.Kind() == types.String
+		case *types.Slice:
+			b, ok := t.Elem().Underlying().(*types.Basic)
+			return ok && b.Kind() == types.String
+		}
+		return false
+	}
+	lenOf := func(v ssa.Value) ssa.Value {
+		if call, ok := v.(*ssa.Call); ok {
+			if b, ok := call.Call.Value.(*ssa.Builtin); ok && b.Name() == "len" {
+				return call.Call.Args[0]
+			}
+		}
+		return nil
+	}
+	unionCheck := false
+	for _, b := range falseFrom {
+		for _, d := range deps[b] {
+			if bo, ok := branchCond(d.Branch).(*ssa.BinOp); ok && (bo.Op == token.NEQ || bo.Op == token.EQL) {
+				x, y := lenOf(bo.X), lenOf(bo.Y)
+				if x != nil && y != nil && ((isUnion(x) && isList(y, 0)) || (isUnion(y) && isList(x, 0))) {
+					unionCheck = true
+				}
+			}
+		}
+	}
 	for _, b := range falseFrom {
 		for _, d := range deps[b] {
 			cond := branchCond(d.Branch)
 			if ph, ok := cond.(*ssa.Phi); ok && web[ph] {
 				continue // `if fieldsSame && ...`: testing the flag itself restricts nothing that matters
+			}
+			if unionCheck && (r17LivenessOnly(p, cond, 0, map[ssa.Value]bool{}) || r17UnionCompare(cond, isUnion, func(v ssa.Value) bool { return isList(v, 0) }, lenOf)) {
+				continue
 			}
 			bo, ok := cond.(*ssa.BinOp)
 			if !ok {
@@ -1510,6 +1665,125 @@ func r17MergeFields(c *RuleCtx, mf *ssa.Function) {
 	c.add2(len(bad) == 0 && sawLen && sawElem, props, "mergeFields/every-difference-clears", c.fpos(mf),
 		"fieldsSame is cleared whenever a segment's field list differs from the first segment's in length or in any element: the clearing is controlled only by those two comparisons and the loops over segments and fields",
 		fmt.Sprintf("length compared: %v, elements compared: %v; %s — some differences between field lists would go unnoticed and stored/posting bytes carrying segment-local field ids would be copied verbatim", sawLen, sawElem, strings.Join(uniq(bad), "; ")))
+}
+
+// r17UnionCompare: a comparison of the merged field set (or list) with a reference list — lengths, the
+// reference list against nil, or elements of both.
+func r17UnionCompare(cond ssa.Value, isUnion, isList func(ssa.Value) bool, lenOf func(ssa.Value) ssa.Value) bool {
+	bo, ok := cond.(*ssa.BinOp)
+	if !ok {
+		return false
+	}
+	if x, y := lenOf(bo.X), lenOf(bo.Y); x != nil && y != nil {
+		return (isUnion(x) && isList(y)) || (isUnion(y) && isList(x))
+	}
+	if (isNilConst(bo.X) && isList(bo.Y)) || (isNilConst(bo.Y) && isList(bo.X)) {
+		return true
+	}
+	elemOf := func(v ssa.Value) ssa.Value {
+		if u, ok := v.(*ssa.UnOp); ok && u.Op == token.MUL {
+			if ia, ok := u.X.(*ssa.IndexAddr); ok {
+				return ia.X
+			}
+		}
+		return nil
+	}
+	if x, y := elemOf(bo.X), elemOf(bo.Y); x != nil && y != nil {
+		return (isUnion(x) && isList(y)) || (isUnion(y) && isList(x))
+	}
+	// loop bound over the union
+	if bo.Op == token.LSS {
+		if x := lenOf(bo.Y); x != nil && isUnion(x) {
+			return true
+		}
+	}
+	return false
+}
+
+// r17LivenessOnly: the condition is computed from nothing but a segment's document count, elements of a
+// drops table (nil-ness, cardinality, emptiness), constants, and flags that are themselves such.
+func r17LivenessOnly(p *Program, v ssa.Value, depth int, seen map[ssa.Value]bool) bool {
+	if v == nil || depth > 8 {
+		return false
+	}
+	if seen[v] {
+		return true
+	}
+	seen[v] = true
+	isBitmap := func(t types.Type) bool {
+		pt, ok := t.Underlying().(*types.Pointer)
+		if !ok {
+			return false
+		}
+		n, ok := pt.Elem().(*types.Named)
+		return ok && n.Obj().Name() == "Bitmap" && n.Obj().Pkg() != nil && strings.Contains(n.Obj().Pkg().Path(), "roaring")
+	}
+	switch x := v.(type) {
+	case *ssa.Const:
+		return true
+	case *ssa.Parameter:
+		return isBitmap(x.Type()) || isNamedPtr(x.Type(), "SegmentBase")
+	case *ssa.BinOp:
+		return r17LivenessOnly(p, x.X, depth+1, seen) && r17LivenessOnly(p, x.Y, depth+1, seen)
+	case *ssa.Convert:
+		return r17LivenessOnly(p, x.X, depth+1, seen)
+	case *ssa.Phi:
+		for _, e := range x.Edges {
+			if !r17LivenessOnly(p, e, depth+1, seen) {
+				return false
+			}
+		}
+		return true
+	case *ssa.UnOp:
+		if x.Op == token.NOT {
+			return r17LivenessOnly(p, x.X, depth+1, seen)
+		}
+		if x.Op == token.MUL {
+			if sn, fld, _, ok := loadedField(x); ok {
+				return sn == "SegmentBase" && fld == "numDocs"
+			}
+			if ia, ok := x.X.(*ssa.IndexAddr); ok {
+				if sl, ok := ia.X.Type().Underlying().(*types.Slice); ok {
+					return isBitmap(sl.Elem()) || isNamedPtr(sl.Elem(), "SegmentBase")
+				}
+			}
+		}
+	case *ssa.Call:
+		f := x.Call.StaticCallee()
+		if f == nil {
+			return false
+		}
+		for _, a := range x.Call.Args {
+			if !r17LivenessOnly(p, a, depth+1, seen) {
+				return false
+			}
+		}
+		if f.Pkg != nil && strings.Contains(f.Pkg.Pkg.Path(), "roaring") {
+			switch f.Name() {
+			case "GetCardinality", "IsEmpty":
+				return true
+			}
+			return false
+		}
+		if p.InZap(f) && len(f.Blocks) > 0 && f.Signature.Results().Len() == 1 {
+			for _, ret := range returnsOf(f) {
+				if !r17LivenessOnly(p, ret.Results[0], depth+1, seen) {
+					return false
+				}
+			}
+			return true
+		}
+	}
+	return false
+}
+
+func isNamedPtr(t types.Type, name string) bool {
+	pt, ok := t.Underlying().(*types.Pointer)
+	if !ok {
+		return false
+	}
+	n, ok := pt.Elem().(*types.Named)
+	return ok && n.Obj().Name() == name
 }
 
 func rangeIndexOf(v ssa.Value) (*ssa.Phi, bool) {
